@@ -868,6 +868,30 @@ def auctionClose (cfg : Cfg) (s : State) (bidder borrowId : Nat) (paid recv left
   pure { s with bank := k8, borrows := delBorrow s.borrows borrowId, locked := delLocked s.locked borrowId, resv := r2,
                 stats := delBorrowId st1 pair.outPool pair.assetOut borrowId }
 
+/-! ## The store migration 2 → 3 (x/lend/keeper/migrate.go:126-246): a configuration change
+
+`MigrateLendPairs` / `MigrateAssetRatesParams` re-encode every pair and every asset-rates record: e-mode off, isolation off, e-LTV,
+e-threshold and e-penalty zero. They decode each record into ONE variable declared outside the loop with the generated `Unmarshal`,
+which does not reset its receiver: a proto3 field that is absent on the wire (a `false` bool) keeps the value of the PREVIOUS record —
+`IsInterPool` and `EnableStableBorrow` are sticky once a record had them `true` (store order = ascending id). Positions, totals,
+balances and records of the state are not touched. -/
+
+def migratePairs : Bool → List PairCfg → List PairCfg
+  | _, [] => []
+  | carry, p :: ps => { p with inter := p.inter || carry, eMode := false } :: migratePairs (p.inter || carry) ps
+
+def migrateRates : Bool → List RatesCfg → List RatesCfg
+  | _, [] => []
+  | carry, r :: rs => { r with stableOk := r.stableOk || carry, isolated := false, eLtv := 0, eLiqPenalty := 0 } :: migrateRates (r.stableOk || carry) rs
+
+/-- what `Migrate2to3` does to the configuration -/
+def migrateCfg (cfg : Cfg) : Cfg := { cfg with pairs := migratePairs false cfg.pairs, rates := migrateRates false cfg.rates }
+
+/-- what it is written to do: every record on its own -/
+def migrateCfgSpec (cfg : Cfg) : Cfg :=
+  { cfg with pairs := cfg.pairs.map fun p => { p with eMode := false },
+             rates := cfg.rates.map fun r => { r with isolated := false, eLtv := 0, eLiqPenalty := 0 } }
+
 /-! ## Operations, step, run -/
 
 inductive Op where
